@@ -56,6 +56,14 @@ def _impl(tier, seed, search):
                 if ok and len(r) == 2: L.close('add-multi', np.array(r.data), np.array([a + c, c + a]), TOL, sa, inp)
                 elif ok: L.check('add-multi', False, inp, 'multi-valued sum has the wrong length')
                 L.raises('add-unequal-length', lambda: M1 + cls(a), inp, 'adding spatial vectors of unequal length must raise', sig='add-unequal-length')
+                L.raises('sub-unequal-length', lambda: M1 - cls(a), inp, 'subtracting spatial vectors of unequal length must raise', sig='add-unequal-length')
+                ok, r = L.noraise('sub-multi', lambda: M1 - M2, inp, 'multi-valued difference')
+                if ok and len(r) == 2: L.close('sub-multi', np.array(r.data), np.array([a - c, c - a]), TOL, sa, inp)
+                elif ok: L.check('sub-multi', False, inp, 'multi-valued difference has the wrong length')
+                ok, r = L.noraise('neg-multi', lambda: -M1, inp, 'negation of a multi-valued spatial vector', sig='neg-multi:raises')
+                if ok:
+                    L.check('neg-multi:class', type(r) is cls and len(r) == 2, inp, 'negation of a 2-valued object is not a 2-valued object of the same class')
+                    if len(r) == 2: L.close('neg-multi', np.array(r.data), np.array([-a, -c]), 1e-15, sa, inp)
         if i == 0:
             for c1 in CL:
                 for c2 in CL:
